@@ -33,6 +33,39 @@ CLAIMS = {
     "C12": ("lock-state dataflow incl. the logical lock Server.starting; path queries for admission-after-drain-test and slot release; SSA guards for close(drain)/close(full); linear Recv dataflow",
             "necessary conditions of ordered, capped, exactly-once local delivery in package server, exhaustive over CFG paths; not ordering or the cap as numeric invariants over timings",
             "trusts x/tools v0.29.0; lock identity per class", "DESIGN.md 3 C12"),
+    "C03": ("abstract interpretation of the pointer-word decoders over a per-bit provenance domain, compared with the encoding specification's field table; normal forms (loop-free SSA paths) of the resolution code; anchor lemmas (call + argument + dominating atoms)",
+            "bit-exact agreement of every decoder with the specified pointer layout for all 2^64 pointer words (the domain tracks each result bit's source bit), plus structural normal forms of far/double-far/composite resolution and of the default/upgrade clauses; not value equality of decoded trees against an independent decoder",
+            "trusts x/tools v0.29.0; arithmetic outside shift/mask/convert/add-constant is opaque to the bit domain and fails the rule rather than passing", "DESIGN.md 3 C03"),
+    "C04": ("sibling cross-check of getter/setter/list accessor pairs against the schema width table (SSA anchors), normal forms of setters and alloc, who-may-grow-a-segment, header-field table shared by the four framers",
+            "three necessary conditions of write/read-back agreement decided over every accessor pair and framer (same guard, same width, same address on both sides; a single bump allocator that zero-fills; one header layout); not round-trip equality, non-interference or chunking independence",
+            "trusts x/tools v0.29.0", "DESIGN.md 3 C04"),
+    "C05": ("abstract interpretation of the pointer-word encoders over per-bit provenance, composition decoder(encoder(args)) in the same domain, normal forms of List.raw/nearPointerOffset/allocSize, anchor lemmas for the shapes emitted by writePtr",
+            "bit-exact agreement of every encoder with the specified layout and inverse agreement with the decoders of C03 for all argument values, plus the structural conditions under which writePtr emits near / far / double-far pointers; not that an independent decoder reconstructs the written tree",
+            "trusts x/tools v0.29.0; opaque arithmetic fails the rule", "DESIGN.md 3 C05"),
+    "C13": ("SSA def-use (the copy count reaches a comparison), value-source classification of allocation sizes and run counters, tag-dispatch sibling comparison of Pack/Unpack/ReadWord, interval analysis of indexes against dominating length tests",
+            "four structural clauses of the packed codec decided over every site (short literal detected, growth per count byte bounded by a single byte, same tag set in all three codecs with ErrUnexpectedEOF at every truncation point, every input index bounded); not unpack(pack(x)) = x nor equivalence of the two decoders",
+            "trusts x/tools v0.29.0", "DESIGN.md 3 C13"),
+    "C14": ("SSA dominance of header-derived allocation sizes by limit comparisons, normal form of totalSize, classification of every returned error in Decode (EOF only for the first header read), three-index-slice check for reused buffers",
+            "structural necessary conditions of bounded, exactly framed decoding decided over every allocation and return site of Decoder.Decode, Unmarshal and demuxArena; not equality of decoded and encoded messages nor exact allocation totals",
+            "trusts x/tools v0.29.0", "DESIGN.md 3 C14"),
+    "C15": ("static analysis of the generator's template program (the string constant compiled into capnpc-go parsed with text/template/parse): snippet-first discipline per accessor, getter/setter expression agreement, file/embedded tree equality; normal forms of the parameter code; no-map-iteration and dropped-error rules over SSA",
+            "structural necessary conditions of generated accessors agreeing with the schema (every union member accessor checks/sets the discriminant at DiscriminantOffset, getter and setter name the same slot, width and default; offsets scaled by the width; deterministic emission order; generator failures reported); not that emitted code compiles or that emitted bytes are right for a given schema",
+            "trusts x/tools v0.29.0 and text/template/parse; the generated *.capnp.go files checked in are not re-derived", "DESIGN.md 3 C15"),
+    "C16": ("anchor lemmas over SSA (call + arguments + dominating atoms) for the copy decision of writePtr, the capability re-homing, copyStruct's section handling and list copies",
+            "structural necessary conditions of deep copy on assignment decided over the copy kernel (copy exactly under forceCopy / other message / list member; capabilities re-homed with AddRef; truncation, zero-fill and nulling of sections; fresh allocation per copied list); not value equality of the copy nor independence under later mutation",
+            "trusts x/tools v0.29.0; normal forms are sensitive to refactoring of the named kernel functions (a changed form is reported as undecided-violation with both forms)", "DESIGN.md 3 C16"),
+    "C17": ("SSA guard analysis (element-size*length only under a not-bit-list proof), case-coverage lemmas for Equal, dropped-error rule for the recursion",
+            "necessary conditions of Equal being structural equality decided over every comparison site; not iff-correctness, reflexivity or symmetry as value-level facts",
+            "trusts x/tools v0.29.0", "DESIGN.md 3 C17"),
+    "C18": ("SSA guard analysis of the bulk-copy path, anchor lemmas for canonical sizes, pre-order allocation order via dominance, capability rejection and single-segment output lemmas, dropped-error rule",
+            "structural necessary conditions of canonicalisation decided over canonical.go (composite lists never take the data-only path; every struct sized by canonicalStructSize; pre-order allocation; capabilities rejected); not byte-identity across layouts nor idempotence as value-level facts",
+            "trusts x/tools v0.29.0", "DESIGN.md 3 C18"),
+    "C19": ("sibling table extraction: each schema walker's type switch compared with the schema width/scale table; union-guard reachability over the SSA CFG; bounds-predicate normal form; cached-message budget rule; dropped-error rule",
+            "structural necessary conditions of pogs agreeing with generated accessors decided over every accessor call in extractField/insertField/marshalFieldValue; not round-trip equality nor Go struct tag/embedding resolution",
+            "trusts x/tools v0.29.0", "DESIGN.md 3 C19"),
+    "C20": ("finite-domain evaluation of the escape predicate by constant folding over all 256 byte values on the SSA form, escape-switch/guard contradiction rule, dropped-error rule, cached-message budget rule, sibling table and union guard for the text walker",
+            "the escape set is decided exactly for every byte value (finite domain), the remaining clauses are structural necessary conditions over every call site of the text encoder; not injectivity of the whole rendering nor float formatting",
+            "trusts x/tools v0.29.0", "DESIGN.md 3 C20"),
 }
 PENDING_REASON = "no static check registered yet in this round; see DESIGN.md section 3 for the clause that is planned"
 NOT_APPLICABLE = {
